@@ -5,7 +5,7 @@
 From Coq Require Import String.
 From Coq Require Import List Ascii ZArith Bool Lia.
 From CGV Require Import Base.PyBase Base.PyVal Base.NxGraph Resolve.Bonding Resolve.GraphOps Resolve.Pipeline Resolve.PipelineFull
-     Resolve.FragidProofs Stereo.EzImpl Stereo.EzDefs Stereo.EzProofs.
+     Resolve.FragidProofs Stereo.EzImpl Stereo.EzDefs Stereo.EzProofs Stereo.EzBuilt.
 From CGV Require Hydro.Hydrogens Hydro.Squash.
 From CGV Require Import Dialect.ReturnedAnnot.
 Import ListNotations.
@@ -31,6 +31,7 @@ Qed.
 
 (** the tail of an all-atom step *)
 Lemma step_ez legacy fd prev car fo : resolve_step_full legacy true fd prev car = Ok fo ->
+  sort_nodes_by_attr (fo_m4 fo) = Ok (fo_m5 fo) /\
   annotate_ez_isomers_cgsmiles (fo_m5 fo) = Ok (fo_m6 fo) /\
   exists fgs0, set_atom_names (fo_m6 fo) (fo_meta fo) fgs0 = Ok (fo_mol fo, fo_fgs fo).
 Proof.
@@ -40,11 +41,11 @@ Proof.
   destruct (bonding_step legacy true meta m1 fg1) as [[m2 fg2]|]; [|discriminate]. unfold bind at 1.
   destruct (Squash.squash_atoms m2) as [m3|]; [|discriminate]. unfold bind at 1.
   destruct (Hydrogens.rebuild_h_atoms_default m3 car) as [m4|]; [|discriminate]. unfold bind at 1.
-  destruct (sort_nodes_by_attr m4) as [m5|]; [|discriminate]. unfold bind at 1.
+  destruct (sort_nodes_by_attr m4) as [m5|] eqn:E5; [|discriminate]. unfold bind at 1.
   destruct (annotate_ez_isomers_cgsmiles m5) as [m6|] eqn:E6; [|discriminate]. unfold bind at 1.
   destruct (annotate_fragments meta m6) as [fgs|]; [|discriminate]. unfold bind at 1.
   destruct (set_atom_names m6 meta fgs) as [[m7 fgs']|] eqn:E8; [|discriminate]. unfold bind.
-  intros H. inversion H; subst. cbn. split; [exact E6|]. exists fgs. exact E8.
+  intros H. inversion H; subst. cbn. split; [exact E5|]. split; [exact E6|]. exists fgs. exact E8.
 Qed.
 
 Lemma ez_list_names mol meta fgs mol' fgs' k : set_atom_names mol meta fgs = Ok (mol', fgs') -> ez_list mol' k = ez_list mol k.
@@ -60,7 +61,7 @@ Theorem returned_refs_valid legacy fd prev car fo : resolve_step_full legacy tru
   wf_graph (fo_m5 fo) ->
   forall k v, In v (ez_list (fo_mol fo) k) -> In v (ez_list (fo_m5 fo) k) \/ tuple_ok (fo_mol fo) k v = true.
 Proof.
-  intros H W k v I. destruct (step_ez _ _ _ _ _ H) as [E6 [fgs0 E8]].
+  intros H W k v I. destruct (step_ez _ _ _ _ _ H) as [E5 [E6 [fgs0 E8]]].
   rewrite (ez_list_names _ _ _ _ _ k E8) in I.
   destruct (ez_refs_valid _ _ W E6 _ _ I) as [Old|New]; [now left|right].
   rewrite (shape_tuple_ok (fo_mol fo) (fo_m6 fo) _ _ (set_atom_names_shape _ _ _ _ _ E8)). exact New.
@@ -72,6 +73,13 @@ Proof.
   rewrite N in Old. contradiction.
 Qed.
 
+(** ... and that hypothesis ALWAYS holds: the sorted molecule is what relabel_nodes(copy=True) built (EzBuilt.sorted_wf) *)
+Theorem step_sorted_wf legacy fd prev car fo : resolve_step_full legacy true fd prev car = Ok fo -> wf_graph (fo_m5 fo).
+Proof. intros H. destruct (step_ez _ _ _ _ _ H) as [E5 _]. exact (sorted_wf _ _ E5). Qed.
+Theorem returned_refs_valid_all legacy fd prev car fo : resolve_step_full legacy true fd prev car = Ok fo ->
+  forall k v, In v (ez_list (fo_mol fo) k) -> In v (ez_list (fo_m5 fo) k) \/ tuple_ok (fo_mol fo) k v = true.
+Proof. intros H. exact (returned_refs_valid _ _ _ _ _ H (step_sorted_wf _ _ _ _ _ H)). Qed.
+
 (** each relation of the returned graph is stored on both ligands, mirrored, with one class *)
 Theorem returned_symmetric legacy fd prev car fo : resolve_step_full legacy true fd prev car = Ok fo ->
   wf_graph (fo_m5 fo) ->
@@ -79,11 +87,17 @@ Theorem returned_symmetric legacy fd prev car fo : resolve_step_full legacy true
   exists l1 a1 a2 l2 c, v = ez_tuple l1 a1 a2 l2 c /\ k = l1 /\ (c = v_cis \/ c = v_trans) /\
                         In (ez_tuple l2 a2 a1 l1 c) (ez_list (fo_mol fo) l2).
 Proof.
-  intros H W k v [I NI]. destruct (step_ez _ _ _ _ _ H) as [E6 [fgs0 E8]].
+  intros H W k v [I NI]. destruct (step_ez _ _ _ _ _ H) as [E5 [E6 [fgs0 E8]]].
   rewrite (ez_list_names _ _ _ _ _ k E8) in I.
   destruct (ez_symmetric _ _ W E6 k v (conj I NI)) as (l1 & a1 & a2 & l2 & c & Hv & Hk & Hc & Hm).
   exists l1, a1, a2, l2, c. repeat split; auto. now rewrite (ez_list_names _ _ _ _ _ l2 E8).
 Qed.
+
+Theorem returned_symmetric_all legacy fd prev car fo : resolve_step_full legacy true fd prev car = Ok fo ->
+  forall k v, is_new (fo_m5 fo) (fo_mol fo) k v ->
+  exists l1 a1 a2 l2 c, v = ez_tuple l1 a1 a2 l2 c /\ k = l1 /\ (c = v_cis \/ c = v_trans) /\
+                        In (ez_tuple l2 a2 a1 l1 c) (ez_list (fo_mol fo) l2).
+Proof. intros H. exact (returned_symmetric _ _ _ _ _ H (step_sorted_wf _ _ _ _ _ H)). Qed.
 
 (** the classes of the returned graph are the classes of the pairs of the SORTED molecule: every new tuple stems from a pair
     of [all_pairs (fo_m5 fo)] and carries [pair_result] of that pair - so the class theorems (table_vs_geom, class_iff_wrong,
@@ -93,7 +107,7 @@ Theorem returned_class_of_pair legacy fd prev car fo : resolve_step_full legacy 
   exists ps x y c, all_pairs (fo_m5 fo) (ez_class_dict (fo_m5 fo)) = Ok ps /\ In (x, y) ps /\ pair_result (x, y) = Some c /\
     (v = ez_tuple (s_lig x) (s_anc x) (s_anc y) (s_lig y) c \/ v = ez_tuple (s_lig y) (s_anc y) (s_anc x) (s_lig x) c).
 Proof.
-  intros H k v [I NI]. destruct (step_ez _ _ _ _ _ H) as [E6 [fgs0 E8]].
+  intros H k v [I NI]. destruct (step_ez _ _ _ _ _ H) as [E5 [E6 [fgs0 E8]]].
   rewrite (ez_list_names _ _ _ _ _ k E8) in I.
   destruct (annotate_cg_inv _ _ E6) as [ps [apps [H1 [H2 [H3 H4]]]]].
   rewrite H4 in I. destruct (apply_appends_in _ _ _ _ I) as [Old|New]; [contradiction|].
@@ -105,7 +119,7 @@ Qed.
 Theorem returned_chiral legacy fd prev car fo k : resolve_step_full legacy true fd prev car = Ok fo ->
   node_get (fo_mol fo) k (S "chiral") = node_get (fo_m5 fo) k (S "chiral").
 Proof.
-  intros H. destruct (step_ez _ _ _ _ _ H) as [E6 [fgs0 E8]].
+  intros H. destruct (step_ez _ _ _ _ _ H) as [E5 [E6 [fgs0 E8]]].
   rewrite (set_atom_names_keeps _ _ _ _ _ E8) by (intros E; vm_compute in E; discriminate).
   apply (chiral_stays_annotate _ _ k E6).
 Qed.
